@@ -330,6 +330,25 @@ thread_local! {
     pub static ABORT_MSG: RefCell<Option<String>> = const { RefCell::new(None) };
     /// activity counter for tokio quiescence detection
     pub static ACTIVITY: Cell<u64> = const { Cell::new(0) };
+    /// harness threads that catch_unwind library calls set this to keep stderr quiet
+    pub static QUIET_PANICS: Cell<bool> = const { Cell::new(false) };
+}
+
+/// Run `f`, converting a panic into Err(message) without printing it.
+pub fn catch_quiet<T>(f: impl FnOnce() -> T) -> Result<T, String> {
+    init();
+    QUIET_PANICS.with(|q| q.set(true));
+    let r = std::panic::catch_unwind(std::panic::AssertUnwindSafe(f));
+    QUIET_PANICS.with(|q| q.set(false));
+    r.map_err(|p| {
+        if let Some(s) = p.downcast_ref::<&str>() {
+            (*s).to_string()
+        } else if let Some(s) = p.downcast_ref::<String>() {
+            s.clone()
+        } else {
+            "panic".to_string()
+        }
+    })
 }
 
 pub fn bump_activity() {
@@ -360,7 +379,7 @@ pub fn init() {
     ONCE.call_once(|| {
         let default = std::panic::take_hook();
         std::panic::set_hook(Box::new(move |info| {
-            if info.payload().is::<Killed>() {
+            if info.payload().is::<Killed>() || QUIET_PANICS.with(|q| q.get()) {
                 return;
             }
             if try_ctx().is_some() {
